@@ -13,7 +13,7 @@ Oracle (independent of the Lean model): a counter / register per key.
 from streams.cluster import T0, hx
 
 HEADER = 3
-REQUIRED_SHAPES = ["incr", "incr_via_non_owner", "overlap_incr", "overlap_getput", "overlap_float", "overlap_two_members", "race_incr", "race_getput",
+REQUIRED_SHAPES = ["older_timestamp_writes_last", "incr", "incr_via_non_owner", "overlap_incr", "overlap_getput", "overlap_float", "overlap_two_members", "race_incr", "race_getput",
                    "float", "incr_keeps_ttl", "getput_chain"]
 
 
@@ -84,6 +84,23 @@ class Oracle:
                 self.hit("incr_via_non_owner")
             if not self.same(exp, reply):
                 return "%s %s via %s/m%s returned %s, expected %s" % (name[2:], a[4], a[0], a[1], reply[:60], exp)
+            return None
+        if name == "c.atomenv":
+            # <path> <i> dm <key> <op1> <arg1> -- <adv> <path2> <i2> <op2> <arg2>: second, then first (which wrote with the older timestamp)
+            key, op1, arg1, op2, arg2 = a[3], a[4], a[5], a[10], a[11]
+            r1, inner = reply.split(" inner=")
+            if inner == "-":
+                self.hit("env_point_not_reached")
+                e1 = self.apply(key, op1, arg1)
+                return None if self.same(e1, r1) else "%s %s returned %s, expected %s" % (op1, arg1, r1, e1)
+            r2 = inner.split(":", 1)[1]
+            e2 = self.apply(key, op2, arg2)
+            e1 = self.apply(key, op1, arg1)
+            self.now += int(a[7]) * 1_000_000
+            self.hit("older_timestamp_writes_last")
+            if not (self.same(e2, r2) and self.same(e1, r1)):
+                return ("an operation that took its timestamp before another one ran, and its lock after it: %s %s returned %s, %s %s returned %s; "
+                        "serial order second-then-first gives %s and %s" % (op1, arg1, r1, op2, arg2, r2, e1, e2))
             return None
         if name in ("c.atomx", "c.atomxf"):
             key, op1, arg1 = a[3], a[4], a[5]
@@ -193,6 +210,23 @@ class Gen:
                 ver += 1
                 yield "c.getput %s %d dm %s %s" % (p, m, k, hx(b"g%d" % ver))
                 yield "c.get %s %d dm %s" % (r.choice(["emb", "cli"]), r.randrange(n), k)
+            elif x < 0.56:
+                # the first caller takes its timestamp, the clock moves, a second caller runs completely, then the first
+                # one takes the lock: it writes LAST with the OLDER timestamp; every copy must end up with its value
+                p2, m2 = entry()
+                adv = r.choice([1, 50, 2000])
+                if r.random() < 0.6:
+                    k = ck[0]
+                    yield "c.atomenv %s %d dm %s %s %d -- %d %s %d %s %d" % (p, m, k, r.choice(["incr", "decr"]), r.choice([1, 5, 50]), adv,
+                                                                             p2, m2, r.choice(["incr", "decr"]), r.choice([3, 7, 1000]))
+                else:
+                    k = r.choice(gk)
+                    ver += 2
+                    yield "c.atomenv %s %d dm %s getput %s -- %d %s %d getput %s" % (p, m, k, hx(b"g%d" % (ver - 1)), adv, p2, m2, hx(b"g%d" % ver))
+                now += adv * 1_000_000
+                yield "clock %d" % now
+                for mm in range(n):
+                    yield "c.get emb %d dm %s" % (mm, k)
             elif x < 0.80:
                 p2, m2 = entry()
                 kind = r.random()
